@@ -121,7 +121,8 @@ class CollCell:
         self.elem: set = set()
         self.part: set = set()
         self.site = site
-        self.born = born  # iterations that were running when the collection was created (it is a per-element temporary of those)
+        self.born = born  # iterations that were running when the collection was created
+        self.scope = born  # iterations of which the collection is a per-element temporary (shrinks when it is stored in a longer-lived container)
 
 
 class DictCell:
@@ -129,6 +130,7 @@ class DictCell:
         self.entries: set = set()  # (key value, value value)
         self.site = site
         self.born = born
+        self.scope = born
 
 
 class ObjCell:
@@ -166,6 +168,7 @@ class Interp:
         self.active: list[int] = []
         self.eids: dict = {}
         self.eid_info: dict[int, str] = {}
+        self.loop_eids: set = set()  # identities that stand for iterations of for-loops / comprehensions
         self.closures: list[dict] = []
         self.stack: list[str] = []
         self.guards: list[list] = []  # data-dependent conditions guarding the calls on the stack
@@ -214,8 +217,8 @@ class Interp:
         for sh in v:
             if isinstance(sh, Ref) and sh.kind in ("coll", "dict"):
                 inner = self.cells[sh.key]
-                if not inner.born <= container.born:
-                    inner.born = inner.born & container.born
+                if not inner.scope <= container.scope:
+                    inner.scope = inner.scope & container.scope
 
     def add(self, ref: Ref, elems: frozenset) -> None:
         c = self.cells[ref.key]
@@ -746,6 +749,7 @@ class Interp:
 
     def exec_for(self, s: ast.For, env: dict, fr: Frame) -> dict | None:
         e = self.eid((id(s), fr.inv), f"{fr.fi.relpath}:{s.lineno}")
+        self.loop_eids.add(e)
         ex = self.early_exit(s)
         head = dict(env)
         brk = None
@@ -920,7 +924,7 @@ class Interp:
                         k = (id(e), fr.inv, "auto", sh.key)
                         inner = {self.coll(k, self.site(fr, e)) if kind == "coll" else self.dict_(k, self.site(fr, e))}
                         for r in inner:
-                            self.cells[r.key].born = self.cells[r.key].born & self.cell(sh).born
+                            self.cells[r.key].scope = self.cells[r.key].scope & self.cell(sh).scope
                     for r in inner:
                         self.store_entry(sh, key, V(r))
                     out |= inner
@@ -1046,7 +1050,7 @@ class Interp:
         grouped = any(self.live(sc.assoc) for sc in self.scalars(added))
         for r in refs:
             if isinstance(r, Ref) and r.kind == "coll":
-                born = self.cells[r.key].born
+                born = self.cells[r.key].scope
                 # a condition on the element of an iteration only drops something from collections that outlive that element
                 marks = [("part", w, why, grouped) for w, why, ce in reasons if not (ce and ce <= born)]
                 if marks:
@@ -1257,6 +1261,7 @@ class Interp:
             g = e.generators[gi]
             itv = self.ev(g.iter, inner, fr)
             eid = self.eid((id(e), gi, fr.inv), f"{fr.fi.relpath}:{e.lineno}")
+            self.loop_eids.add(eid)
             elem = self.elems(itv)
             alts = [V(sh) for sh in elem] if 0 < len(elem) <= 64 else [elem]
             for alt in alts:
